@@ -249,6 +249,22 @@ def rule_pairing(repo, rep):
     rep.check(len(oc) == 1 and "op.type" in norm(oc[0].value) and "custom_code" in norm(oc[0].value) and "op.version" in norm(oc[0].value), "C11-d", site,
               "operator codes keep (type, custom code, version)", "")
     rep.check(any(norm(s) == "op.version = version" for s in ast.walk(po) if isinstance(s, ast.Assign)), "C11-d", f"{TR}:TFLiteSubgraph.parse_operator", "reader keeps the operator version", "")
+    # operator-code map: one entry per (type, custom code); third-party custom codes accumulate under Op.Custom
+    soc = tw.func("TFLiteSerialiser.serialise_operator_code")
+    br = [n for n in soc.body if isinstance(n, ast.If) and norm(n.test) == "op_type == Op.Custom" and any("operator_code_map" in norm(x) for x in ast.walk(n))]
+    ok = len(br) == 1
+    detail = "branch for third-party custom operators not found"
+    if ok:
+        per_code = [s for s in ast.walk(br[0]) if isinstance(s, ast.Assign) and norm(s.targets[0]) == "self.operator_code_map[op_type][custom_code]"]
+        resets = [s for s in br[0].body if isinstance(s, ast.Assign) and norm(s.targets[0]) == "self.operator_code_map[op_type]"]
+        guarded = [n for n in br[0].body if isinstance(n, ast.If) and norm(n.test) == "op_type not in self.operator_code_map"]
+        uses_setdefault = any("setdefault" in norm(c) for c in calls_in(br[0]))
+        ok = (len(per_code) == 1 or uses_setdefault) and not resets and (bool(guarded) or uses_setdefault)
+        detail = "the inner per-custom-code dict is recreated for every code (only the last custom code survives -> KeyError when the operator is written)"
+    rep.check(ok, "C11-d", f"{TW}:TFLiteSerialiser.serialise_operator_code", "custom operator codes accumulate in operator_code_map[Op.Custom][custom_code]", detail)
+    so = tw.func("TFLiteSerialiser.serialise_operator")
+    rep.check("self.operator_code_map[op.type][op.attrs.get('custom_code', '')]" in norm(so), "C11-d", f"{TW}:TFLiteSerialiser.serialise_operator",
+              "custom operators are looked up by (type, custom code), matching the registration", "")
     # reader owns its constant data (rewrites edit tensor values in place)
     pt = tr.func("TFLiteSubgraph.parse_tensor")
     vals = [s for s in ast.walk(pt) if isinstance(s, ast.Assign) and norm(s.targets[0]) == "tens.values"]
